@@ -192,6 +192,23 @@ class C05(Spec):
                 if len(h) % 17 == 0:
                     h.append("updr 0 %d 2" % (base + n)); h.append("updr 90 %d 2" % (base + n)); n += 2
             hs.append(h)
+        # sliding flavor, long sequential streams (the surprising-value table inserts AND deletes here; runs of entries that wrap around
+        # the end of the slot array need many updates at a fixed table size): lg_k 6-8 (9, 10 thorough), several key offsets, coupon
+        # count / image observed every few hundred updates so that a dropped or doubled coupon is seen close to where it happens
+        for j in range(24 if quick else 120):
+            lgk = ([6, 7, 8] if quick else [6, 7, 8, 9, 10])[j % (3 if quick else 5)]
+            k = 1 << lgk
+            h = ["new 0 %d 9001" % lgk]
+            base = rng.choice([0, 0, rng.randrange(1 << 40), rng.randrange(1 << 20)])
+            goal = int(k * 2 ** (rng.choice([6.0, 6.6, 7.2]) - 0.9))
+            n = 0
+            step = max(8, k // 2)
+            while n < goal:
+                h.append("updr 0 %d %d" % (base + n, step)); n += step
+                if n > 3 * k and (n // step) % 3 == 0:
+                    h.append("ser 0")
+            h.append("ser 0")
+            hs.append(h)
         # long histories: lg_k 4 (and 5) beyond the 8th window shift (kxp refresh from the bit matrix)
         for lgk in ([4] if quick else [4, 5, 6]):
             h = ["new 0 %d 9001" % lgk]
